@@ -421,3 +421,152 @@ Qed.
 (* splitleaf is parent and basename *)
 Lemma splitleaf_spec p : splitleaf p = option_map (fun q => (q, basename p)) (parent p).
 Proof. unfold splitleaf. destruct (parent p); reflexivity. Qed.
+
+Theorem splitleaf_append p :
+  wfp p -> is_nil (suffix_str p) = false -> nodrive [last (p_comps p) []] ->
+  exists q b, splitleaf p = Some (q, b) /\ parent p = Some q /\ b = basename p /\ wfp q /\
+              append q b = Some (set_dir p (is_nil (p_comps p))).
+Proof.
+  intros W Hs Hd. destruct (parent_append p W Hs Hd) as (q & Hq & Wq & _ & _ & _ & Ha).
+  exists q, (basename p). rewrite splitleaf_spec, Hq.
+  split; [reflexivity|]. split; [reflexivity|]. split; [reflexivity|]. split; [exact Wq|exact Ha].
+Qed.
+
+(* ------------------------------------------------------------------------------------------ relpath / append *)
+Lemma rel_comps_render cs : normal cs -> rel_comps (or_dot (render 0 cs)) = cs.
+Proof.
+  intros Hn. unfold or_dot. rewrite (render_nonnil 0 cs Hn). cbn [Nat.eqb andb].
+  destruct cs as [|c cs']; [reflexivity|]. cbn [is_nil].
+  unfold rel_comps. change (c_slash :: render 0 (c :: cs')) with (render 1 (c :: cs')).
+  unfold posix_normpath.
+  destruct (render_head 1 (c :: cs') (Nat.le_refl 1) (normal_head _ Hn)) as [_ Hi]; [discriminate|].
+  rewrite Hi. cbn [snd]. apply (render_split 1 (c :: cs') (Nat.le_refl 1) Hn).
+Qed.
+
+Lemma common_len_le_l a : forall b, common_len a b <= length a.
+Proof.
+  induction a as [|x a IH]; intros [|y b]; cbn; try lia. destruct (str_eqb x y); [|lia]. specialize (IH b). lia.
+Qed.
+
+Lemma common_len_firstn a : forall b, firstn (common_len a b) a = firstn (common_len a b) b.
+Proof.
+  induction a as [|x a IH]; intros [|y b]; cbn; try reflexivity.
+  destruct (str_eqb x y) eqn:E; [|reflexivity]. apply str_eqb_eq in E. subst. cbn. f_equal. apply IH.
+Qed.
+
+Lemma normal_skipn m cs : normal cs -> normal (skipn m cs).
+Proof. intros H. rewrite <- (firstn_skipn m cs) in H. apply normal_app in H. tauto. Qed.
+
+Lemma posix_join_nil b : posix_join [] b = b.
+Proof. destruct b as [|c b]; [reflexivity|]. cbn. destruct (is_slash c); reflexivity. Qed.
+
+(* the components of the relative path from q to p: one pardir per component of q outside the common prefix,
+   then the components of p outside the common prefix *)
+Definition rel_list (cq cp : list str) : list str :=
+  repeat dotdot (length cq - common_len cq cp) ++ skipn (common_len cq cp) cp.
+
+Lemma relpath_value fl p q loc : wfp p -> wfp q -> p_root p = p_root q -> root_eqb (p_root p) Absolute = false ->
+  relpath fl p q [] false = Some (relstr (rel_list (p_comps q) (p_comps p))) /\
+  relpath Posix p q [] loc = Some (relstr (rel_list (p_comps q) (p_comps p))).
+Proof.
+  intros Wp Wq Hr Ha.
+  assert (E : posix_relpath (or_dot (suffix_str p)) (or_dot (suffix_str q)) = relstr (rel_list (p_comps q) (p_comps p))).
+  { rewrite (wfp_suffix p Wp), (wfp_suffix q Wq), (wfp_slashes_rel p Wp Ha).
+    rewrite (wfp_slashes_rel q Wq) by (now rewrite <- Hr).
+    unfold posix_relpath. rewrite (rel_comps_render _ (wf_normal p Wp)), (rel_comps_render _ (wf_normal q Wq)).
+    reflexivity. }
+  unfold relpath. rewrite Ha, Hr, root_eqb_refl, E. cbn [negb is_nil andb]. rewrite posix_join_nil.
+  split; [reflexivity|]. destruct loc; reflexivity.
+Qed.
+
+(* For well-formed paths under the same non-absolute root - provided that, when q is an ancestor of p, the first
+   component of p below q is not of the form x:... (finding relpath-drive-like) - appending to q the relative path
+   from q to p gives exactly p's root and components; the directory flag is set iff p is q or an ancestor of q
+   (append derives it from the string), and the destdir flag is the one of q. *)
+Theorem relpath_append fl p q :
+  wfp p -> wfp q -> p_root p = p_root q -> root_eqb (p_root p) Absolute = false ->
+  (common_len (p_comps q) (p_comps p) = length (p_comps q) ->
+   nodrive (skipn (common_len (p_comps q) (p_comps p)) (p_comps p))) ->
+  exists s, relpath fl p q [] false = Some s /\
+    append q s = Some {| p_root := p_root p; p_drive := []; p_slashes := 0; p_comps := p_comps p;
+                         p_dir := is_nil (skipn (common_len (p_comps q) (p_comps p)) (p_comps p));
+                         p_destdir := p_destdir q |}.
+Proof.
+  intros Wp Wq Hr Ha Hg. exists (relstr (rel_list (p_comps q) (p_comps p))).
+  split; [apply (relpath_value fl p q false Wp Wq Hr Ha)|].
+  set (i := common_len (p_comps q) (p_comps p)) in *.
+  assert (Hi : i <= length (p_comps q)) by apply common_len_le_l.
+  assert (Hq0 : p_slashes q = 0) by (apply (wfp_slashes_rel q Wq); now rewrite <- Hr).
+  assert (Hp0 : p_slashes p = 0) by apply (wfp_slashes_rel p Wp Ha).
+  assert (Hsub : length (p_comps q) - (length (p_comps q) - i) = i) by lia.
+  assert (Hcp : firstn i (p_comps q) ++ skipn i (p_comps p) = p_comps p).
+  { unfold i. rewrite common_len_firstn. apply firstn_skipn. }
+  unfold rel_list. fold i.
+  rewrite (append_rel q (length (p_comps q) - i) (skipn i (p_comps p)) Wq).
+  - rewrite Hsub, Hcp, Hq0, Hr. reflexivity.
+  - apply normal_skipn, (wf_normal p Wp).
+  - destruct (length (p_comps q) - i) as [|n] eqn:En; [|exact (fun H => match N.eqb_neq c_dot c_colon with conj f _ => f eq_refl H end)].
+    cbn [repeat app]. apply Hg. lia.
+  - lia.
+  - intros _. rewrite Hsub, Hcp. apply (wf_nodrive p Wp Hp0).
+Qed.
+
+Corollary relpath_append_eq fl p q :
+  wfp p -> wfp q -> p_root p = p_root q -> root_eqb (p_root p) Absolute = false ->
+  p_destdir p = p_destdir q ->
+  (common_len (p_comps q) (p_comps p) = length (p_comps q) ->
+   nodrive (skipn (common_len (p_comps q) (p_comps p)) (p_comps p))) ->
+  exists s r, relpath fl p q [] false = Some s /\ append q s = Some r /\ path_eqb r p = true.
+Proof.
+  intros Wp Wq Hr Ha Hdd Hg. destruct (relpath_append fl p q Wp Wq Hr Ha Hg) as (s & Hs & Hap).
+  eexists. eexists. split; [exact Hs|]. split; [exact Hap|].
+  unfold path_eqb, suffix_str. cbn [p_root p_drive p_slashes p_comps p_destdir].
+  rewrite root_eqb_refl, (wf_drive p Wp), (wfp_slashes_rel p Wp Ha), str_eqb_refl, Hdd. now destruct (p_destdir q).
+Qed.
+
+(* an absolute path is its own relative path from anywhere; appending it to any well-formed path gives it back
+   (flagged a directory only if it is the file-system root, with the destdir flag of q) *)
+Theorem relpath_append_abs fl p q pre :
+  wfp p -> wfp q -> root_eqb (p_root p) Absolute = true ->
+  relpath fl p q pre false = Some (suffix_str p) /\
+  append q (suffix_str p) = Some {| p_root := Absolute; p_drive := []; p_slashes := 1; p_comps := p_comps p;
+                                    p_dir := is_nil (p_comps p); p_destdir := p_destdir q |}.
+Proof.
+  intros Wp Wq Ha. split; [unfold relpath; now rewrite Ha|].
+  rewrite (wfp_suffix p Wp), (wfp_slashes_abs p Wp Ha).
+  unfold append. rewrite (normalize_render 1 (p_comps p) (Nat.le_refl 1) (wf_normal p Wp)) by discriminate.
+  cbn [Nat.ltb Nat.leb app].
+  rewrite (mk_render (p_root q) 1 (p_comps p) (Some (p_destdir q)) (Some (is_nil (p_comps p))) (Nat.le_refl 1) (wf_normal p Wp)).
+  - cbn [Nat.ltb Nat.leb]. f_equal. f_equal; [now destruct (is_nil (p_comps p))|now destruct (p_destdir q)].
+  - discriminate.
+  - discriminate.
+  - apply (wfp_dd_ok q Wq).
+  - intros E. inversion E as [E']. destruct (p_comps p); discriminate.
+Qed.
+
+(* the rpath form: with a non-empty prefix such as $ORIGIN (not ending in a separator) relpath returns the prefix
+   alone when the two paths are the same place, and otherwise the prefix, a separator and the relative path *)
+Theorem relpath_prefix p q pre loc :
+  wfp p -> wfp q -> p_root p = p_root q -> root_eqb (p_root p) Absolute = false ->
+  is_nil pre = false -> ends_with_slash pre = false ->
+  exists s, relpath Posix p q [] loc = Some s /\
+    relpath Posix p q pre loc = Some (if str_eqb s dot then pre else pre ++ c_slash :: s).
+Proof.
+  intros Wp Wq Hr Ha Hpre Hes. exists (relstr (rel_list (p_comps q) (p_comps p))).
+  split; [apply (relpath_value Posix p q loc Wp Wq Hr Ha)|].
+  assert (V := proj1 (relpath_value Posix p q false Wp Wq Hr Ha)). revert V.
+  unfold relpath. rewrite Ha, Hr, root_eqb_refl, Hpre. cbn [negb is_nil andb]. rewrite posix_join_nil.
+  intros V. inversion V as [V']. rewrite V'.
+  destruct (str_eqb (relstr (rel_list (p_comps q) (p_comps p))) dot) eqn:Ed; [reflexivity|].
+  assert (Hn : normal (skipn (common_len (p_comps q) (p_comps p)) (p_comps p))) by apply normal_skipn, (wf_normal p Wp).
+  assert (Hok := rel_okc (length (p_comps q) - common_len (p_comps q) (p_comps p)) _ Hn). fold (rel_list (p_comps q) (p_comps p)) in Hok.
+  assert (Hnn := relstr_nonnil _ Hok).
+  destruct (relstr (rel_list (p_comps q) (p_comps p))) as [|x r] eqn:Es; [discriminate Hnn|].
+  assert (Hx : is_slash x = false).
+  { unfold relstr in Es. destruct (rel_list (p_comps q) (p_comps p)) as [|c cs]; [inversion Es; reflexivity|].
+    cbn [is_nil] in Es. inversion Hok as [|? ? Hc _]; subst. destruct Hc as [Hc1 [Hc2 _]].
+    destruct c as [|y c]; [congruence|].
+    assert (x = y) by (destruct cs; cbn in Es; inversion Es; reflexivity). subst y.
+    unfold is_slash. apply N.eqb_neq. intros ->. apply Hc2. now left. }
+  unfold posix_join. rewrite Hx, Hpre, Hes. cbn [orb]. destruct loc; reflexivity.
+Qed.
